@@ -11,7 +11,7 @@ import (
 
 func init() {
 	register(&Rule{ID: "ACC-07", Title: "segment file lifecycle call sites: RecoverTail only on Open's path; segment handles are closed and files deleted only by finalizers (or by Open)",
-		Props: []string{"C10", "C13", "C14", "C04", "C03"}, Floor: 6, Run: runACC07})
+		Props: []string{"C10", "C13", "C14", "C04", "C03"}, Floor: 5, Run: runACC07})
 }
 
 // runACC07 is a who-may-call check over the resolved program.
@@ -95,7 +95,7 @@ func runACC07(p *Prog, r *RuleRun) {
 				if cl.Signature.Params().Len() != 0 || cl.Signature.Results().Len() != 0 {
 					continue
 				}
-				if flowsToFinalizer(v, mc, fn, map[ssa.Value]bool{}) {
+				if flowsToFinalizer(p, v, mc, fn, map[ssa.Value]bool{}) {
 					isFinalizer[cl] = true
 				}
 			}
@@ -193,7 +193,7 @@ func runACC07(p *Prog, r *RuleRun) {
 }
 
 // flowsToFinalizer: does value val (in fn) reach the finalizer slot (FIN.Store) or result #0 of a transaction body?
-func flowsToFinalizer(v *walVocab, val ssa.Value, fn *ssa.Function, seen map[ssa.Value]bool) bool {
+func flowsToFinalizer(p *Prog, v *walVocab, val ssa.Value, fn *ssa.Function, seen map[ssa.Value]bool) bool {
 	if seen[val] {
 		return false
 	}
@@ -208,16 +208,46 @@ func flowsToFinalizer(v *walVocab, val ssa.Value, fn *ssa.Function, seen map[ssa
 			if v.isTxnSig(fn.Signature) && len(x.Results) > 0 && x.Results[0] == val {
 				return true
 			}
+			// a helper that builds the closure: follow its result at every call site
+			for ri, res := range x.Results {
+				if res != val || v.isTxnSig(fn.Signature) {
+					continue
+				}
+				for _, caller := range p.Funcs {
+					if pkgRelOf(p, caller) != "" {
+						continue
+					}
+					for _, b := range caller.Blocks {
+						for _, ins := range b.Instrs {
+							c, ok := ins.(*ssa.Call)
+							if !ok || c.Call.StaticCallee() != fn {
+								continue
+							}
+							if len(x.Results) == 1 {
+								if flowsToFinalizer(p, v, c, caller, seen) {
+									return true
+								}
+								continue
+							}
+							for _, r2 := range *c.Referrers() {
+								if ex, ok := r2.(*ssa.Extract); ok && ex.Index == ri && flowsToFinalizer(p, v, ex, caller, seen) {
+									return true
+								}
+							}
+						}
+					}
+				}
+			}
 		case *ssa.Phi:
-			if flowsToFinalizer(v, x, fn, seen) {
+			if flowsToFinalizer(p, v, x, fn, seen) {
 				return true
 			}
 		case *ssa.MakeInterface:
-			if flowsToFinalizer(v, x, fn, seen) {
+			if flowsToFinalizer(p, v, x, fn, seen) {
 				return true
 			}
 		case *ssa.ChangeType:
-			if flowsToFinalizer(v, x, fn, seen) {
+			if flowsToFinalizer(p, v, x, fn, seen) {
 				return true
 			}
 		case *ssa.Store:
@@ -225,7 +255,7 @@ func flowsToFinalizer(v *walVocab, val ssa.Value, fn *ssa.Function, seen map[ssa
 			if x.Val == val {
 				if al, ok := x.Addr.(*ssa.Alloc); ok {
 					for _, r2 := range *al.Referrers() {
-						if ld, ok := r2.(*ssa.UnOp); ok && flowsToFinalizer(v, ld, fn, seen) {
+						if ld, ok := r2.(*ssa.UnOp); ok && flowsToFinalizer(p, v, ld, fn, seen) {
 							return true
 						}
 					}
